@@ -241,9 +241,9 @@ fn main() {
     let mut rng = Rng::new(a.seed);
     let mut run = Run::new(&a.out);
     quiet_panics();
-    let (epochs, batch, max_dump, freq_nodes, freq_draws) = if a.thorough() { (40usize, 6usize, 8000usize, 40usize, 4000usize) } else { (14, 4, 5000, 12, 1500) };
+    let (epochs, batch, max_dump, freq_nodes, freq_draws) = if a.thorough() { (40usize, 6usize, 8000usize, 40usize, 4000usize) } else { (14, 4, 5000, 16, 1500) };
     run.rule = format!(
-        "{epochs} training epochs x {batch} trees from the real Blueprint::tree (empty profile at start, stand-in abstraction, traverser alternating, profile updated as Blueprint::solve does); every node of every tree goes through the clause-by-clause oracle; trees up to {max_dump} nodes are dumped for the Lean acceptor; opponent sampling: {freq_nodes} opponent nodes x {freq_draws} epochs through the real explore_one, chi-square 6 sigma; actionize's f32 product checked for every pot <= 2*STACK x every grid odds. distinct = (tree, node)"
+        "{epochs} training epochs x {batch} trees from the real Blueprint::tree (empty profile at start, stand-in abstraction, traverser alternating, profile updated as Blueprint::solve does); every node of every tree goes through the clause-by-clause oracle; trees up to {max_dump} nodes are dumped for the Lean acceptor; opponent sampling: {freq_nodes} opponent nodes (menus of >= 3 edges preferred) x 2 policies (trained when non-uniform; skewed by verif_set_memory) x {freq_draws} epochs through the real explore_one, per-edge binomial 6 sigma against Profile::weight; actionize's f32 product checked for every pot <= 2*STACK x every grid odds. distinct = (tree, node)"
     );
     // ---- the f32 product in Game::actionize equals floor(pot*num/den) (model assumption)
     for pot in 0..=(2 * STACK as i32) {
@@ -280,53 +280,93 @@ fn main() {
             }
             run.count(&format!("tree-nodes<={}", match n { 0..=99 => 99, 100..=999 => 999, 1000..=2999 => 2999, _ => 99999 }));
             run.count(&format!("walker=P{}", epoch % 2));
-            // ---- opponent sampling frequencies at fixed buckets vs Profile::weight
-            if freq_done < freq_nodes && epoch >= 2 {
+            // ---- opponent sampling frequencies at fixed buckets vs Profile::weight, per EDGE.
+            // Each chosen opponent node (menu of >= 3 edges when there is one) is tested twice on a
+            // private profile holding only its bucket: with the trained policy copied from the real
+            // profile (when it is clearly non-uniform) and with a strongly skewed policy written by
+            // verif_set_memory (geometric masses 0.5^k + 0.01 assigned to the edges in a random
+            // order), sweeping the epoch counter so that every draw has its own PRNG seed.
+            if freq_done < freq_nodes {
                 let walker = tree.walker();
-                let cands: Vec<usize> = tree.all().iter().enumerate()
+                let nodes = tree.all();
+                let opp: Vec<usize> = nodes.iter().enumerate()
                     .filter(|(_, nd)| matches!(nd.player(), Player(Turn::Choice(_))) && nd.player() != walker && nd.children().len() == 1)
                     .map(|(i, _)| i).collect();
+                let wide: Vec<usize> = opp.iter().copied().filter(|&i| Vec::<Edge>::from(nodes[i].bucket().2.clone()).len() >= 3).collect();
+                // prefer a node whose trained policy is already non-uniform
+                let ratio = |i: usize| -> f32 {
+                    let real = profile.read().unwrap();
+                    let ws: Vec<f32> = Vec::<Edge>::from(nodes[i].bucket().2.clone()).iter().map(|e| real.weight(nodes[i].bucket(), e)).collect();
+                    let hi = ws.iter().cloned().fold(0f32, f32::max);
+                    let lo = ws.iter().cloned().fold(1f32, f32::min);
+                    hi / lo.max(1e-9)
+                };
+                let trained: Vec<usize> = wide.iter().copied().filter(|&i| ratio(i) >= 2.0).collect();
+                let cands = if !trained.is_empty() { &trained } else if !wide.is_empty() { &wide } else { &opp };
                 if !cands.is_empty() {
                     let i = cands[rng.below(cands.len() as u64) as usize];
-                    let nodes = tree.all();
                     let node = &nodes[i];
                     let encoder = Encoder::default();
-                    // a private profile holding only this bucket, with the real weights copied
-                    let mut p2 = Profile::default();
                     let menu: Vec<Edge> = Vec::<Edge>::from(node.bucket().2.clone());
-                    {
-                        let real = profile.read().unwrap();
-                        for e in &menu {
-                            let (r, pol) = real.verif_memory(node.bucket(), e).expect("witnessed");
-                            p2.verif_set_memory(node.bucket(), e, r, pol);
+                    for variant in ["trained", "skewed"] {
+                        let mut p2 = Profile::default();
+                        if variant == "trained" {
+                            let real = profile.read().unwrap();
+                            for e in &menu {
+                                let (r, pol) = real.verif_memory(node.bucket(), e).expect("witnessed");
+                                p2.verif_set_memory(node.bucket(), e, r, pol);
+                            }
+                        } else {
+                            let mut order: Vec<usize> = (0..menu.len()).collect();
+                            for k in (1..order.len()).rev() {
+                                order.swap(k, rng.below(k as u64 + 1) as usize);
+                            }
+                            for (e, k) in menu.iter().zip(order) {
+                                p2.verif_set_memory(node.bucket(), e, 0.0, 0.5f32.powi(k as i32) + 0.01);
+                            }
                         }
-                    }
-                    let weights: Vec<f64> = menu.iter().map(|e| p2.weight(node.bucket(), e) as f64).collect();
-                    let mut hist: BTreeMap<Edge, u64> = BTreeMap::new();
-                    for t in 0..freq_draws {
-                        p2.verif_set_epochs(1000 + t);
-                        let chosen = p2.explore_one(encoder.branches(node), node);
-                        run.evaluations += 1;
-                        if chosen.len() != 1 {
-                            run.fail("explore-one-not-one", &format!("{label} node {i}"), "1", &format!("{}", chosen.len()));
+                        let weights: Vec<f64> = menu.iter().map(|e| p2.weight(node.bucket(), e) as f64).collect();
+                        let hi = weights.iter().cloned().fold(0f64, f64::max);
+                        let lo = weights.iter().cloned().fold(1f64, f64::min);
+                        if variant == "trained" && hi < 2.0 * lo {
+                            run.count("frequency-test-trained-policy-near-uniform-skipped");
                             continue;
                         }
-                        *hist.entry(*chosen[0].edge()).or_insert(0) += 1;
-                    }
-                    run.spec_checked += 1;
-                    let t = freq_draws as f64;
-                    for (e, w) in menu.iter().zip(&weights) {
-                        let cnt = *hist.get(e).unwrap_or(&0) as f64;
-                        let sigma = (t * w * (1.0 - w)).sqrt().max(1.0);
-                        if (cnt - t * w).abs() > 6.0 * sigma {
-                            run.fail("opponent-not-sampled-by-weight", &format!("{label} node {i} edge {e} weight {w}"), &format!("about {:.0} of {t}", t * w), &format!("{cnt}"));
+                        let mut hist: BTreeMap<Edge, u64> = BTreeMap::new();
+                        for t in 0..freq_draws {
+                            p2.verif_set_epochs(1000 + t);
+                            let chosen = p2.explore_one(encoder.branches(node), node);
+                            run.evaluations += 1;
+                            if chosen.len() != 1 {
+                                run.fail("explore-one-not-one", &format!("{label} node {i}"), "1", &format!("{}", chosen.len()));
+                                continue;
+                            }
+                            *hist.entry(*chosen[0].edge()).or_insert(0) += 1;
+                        }
+                        run.spec_checked += 1;
+                        let t = freq_draws as f64;
+                        let table = menu.iter().zip(&weights).map(|(e, w)| format!("{e}:w={w:.3}:n={}", hist.get(e).unwrap_or(&0))).collect::<Vec<_>>().join(" ");
+                        for (e, w) in menu.iter().zip(&weights) {
+                            let cnt = *hist.get(e).unwrap_or(&0) as f64;
+                            let sigma = (t * w * (1.0 - w)).sqrt().max(1.0);
+                            if (cnt - t * w).abs() > 6.0 * sigma {
+                                run.fail(
+                                    "opponent-not-sampled-by-weight",
+                                    &format!("{label} node {i} ({variant} policy, {t} draws over epochs) edge {e}; per edge weight and count: {table}"),
+                                    &format!("about {:.0} (weight {w:.4})", t * w),
+                                    &format!("{cnt}"),
+                                );
+                            }
+                        }
+                        let extra: u64 = hist.iter().filter(|(e, _)| !menu.contains(e)).map(|(_, c)| *c).sum();
+                        if extra > 0 {
+                            run.fail("opponent-sampled-off-menu", &format!("{label} node {i}"), "0", &format!("{extra}"));
+                        }
+                        run.count(&format!("frequency-test-{variant}-menu-size={}", menu.len()));
+                        if run.notes.len() < 4 {
+                            run.notes.push(format!("frequency test ({variant}) {label} node {i}: {table}"));
                         }
                     }
-                    let extra: u64 = hist.iter().filter(|(e, _)| !menu.contains(e)).map(|(_, c)| *c).sum();
-                    if extra > 0 {
-                        run.fail("opponent-sampled-off-menu", &format!("{label} node {i}"), "0", &format!("{extra}"));
-                    }
-                    run.count(&format!("frequency-test-menu-size={}", menu.len()));
                     freq_done += 1;
                 }
             }
